@@ -24,10 +24,11 @@ RULE = (
     "byte-identical. non-trivial = case in which the transformation changes the reference formula or attributes."
 )
 RULE += (" " + 'Every case is repeated on a backend/pipeline that converted another rule (other log source) before, and once more after the same rule (differential: same queries and rule attributes as the fresh conversion). add_condition is chained with every field/value transformation (the added condition is a detection of the rule for later items).')
+RULE += " Thorough tier only: every ordered triple of distinct field / value / item rewrites of the catalogue (whole-rule scope) over 7 rules."
 ASSUMPTIONS = ["reference rewrite of each transformation in this module (item-level model, independent of sigma)", "decoder mc/qparse.py, backend K0",
                "regex transformation and external placeholder sources are judged by C05 / C16, here only their identity instances"]
 K = V.K()
-BOUNDS = {"quick": dict(chains=True, chain_scopes=False), "thorough": dict(chains=True, chain_scopes=True)}
+BOUNDS = {"quick": dict(chains=True, chain_scopes=False, triples=False), "thorough": dict(chains=True, chain_scopes=True, triples=True)}
 
 RULES = {
     "single": {"sel": {"f1": "v1"}},
@@ -660,6 +661,11 @@ def space(tier):
                 if BOUNDS[tier]["chain_scopes"]:
                     for sa, sb in ((SCOPES[1], SCOPES[0]), (SCOPES[0], SCOPES[1]), (SCOPES[2], SCOPES[0]), (SCOPES[0], SCOPES[2])):
                         yield rn, "windows", [a + (sa,), b + (sb,)]
+    if BOUNDS[tier]["triples"]:  # every ordered triple of field / value / item rewrites, whole-rule scope
+        fv3 = [t for t in fv if not (t[0].startswith("ph-") or t[0].startswith("setval") or "hashes" in t[0])]
+        for a, b, c in itertools.permutations(fv3, 3):
+            for rn in ("multi", "fieldref", "two-dets", "keywords", "cased", "neq", "all"):
+                yield rn, "windows", [a + (SCOPES[0],), b + (SCOPES[0],), c + (SCOPES[0],)]
 
 
 NSH = 48
